@@ -648,3 +648,13 @@ HARMLESS += [
     # entries from *idx on never belong to an earlier pack: `<=` selects the same run
     dict(id="H-C17-packs-back-le", prop="C17", file=BS13, old="            while *idx < entries.len() && entries[*idx].pack_idx == *pack_idx {", new="            while *idx < entries.len() && entries[*idx].pack_idx <= *pack_idx {"),
 ]
+
+MUTATIONS += [
+    # the blob thread reports success without finalizing the raw packer (the open pack is never flushed)
+    dict(id="C03-blob-thread-no-finalize", prop="C03", file=PKR13, old="                    .and_then(|()| raw_packer.write().unwrap().finalize());", new="                    .and_then(|()| Ok(PackerStats::default()));"),
+    # the blob thread drops blobs whose processing failed and goes on
+    dict(id="C03-blob-thread-skips-failed-blob", prop="C03", file=PKR13, old="                        let (data, id, data_len, ul) = item?;\n", new="                        let Ok((data, id, data_len, ul)) = item else { return Ok(()) };\n"),
+]
+HARMLESS += [
+    dict(id="H-C03-blob-thread-item-binding", prop="C03", file=PKR13, old="                        let (data, id, data_len, ul) = item?;\n", new="                        let item = item?;\n                        let (data, id, data_len, ul) = item;\n"),
+]
